@@ -129,12 +129,17 @@ impl<'a> G<'a> {
             5 => E::Neg(b(self.arith(depth - 1))),
             6 => E::Abs(b(self.arith(depth - 1))),
             7 | 8 => {
-                let n = if self.rng.gen_bool(0.75) { 2 } else { 3 };
+                let n = match self.rng.gen_range(0..20) {
+                    0..=10 => 2,
+                    11..=17 => 3,
+                    _ => 4,
+                };
                 let mut ops: Vec<E> = (0..n).map(|_| self.arith(depth - 1)).collect();
-                if self.rng.gen_bool(0.15) {
-                    // same sub-expression twice / an operand that is a constant
+                if self.rng.gen_bool(0.25) {
+                    // an operand that is a constant (often dominated, hence pruned), at any position
                     let k = self.konst();
-                    ops[0] = k;
+                    let at = self.rng.gen_range(0..n);
+                    ops[at] = k;
                 }
                 if kind == 7 { E::Min(ops) } else { E::Max(ops) }
             }
